@@ -239,7 +239,8 @@ where
 
   fn close_internal(&self) {
     if let Some(dispatcher) = self.dispatcher.upgrade() {
-      let topics_to_unsubscribe: Vec<K> = self.subscriptions.lock().drain().collect();
+      // Copy, do not drain: `unsubscribe` only touches the dispatcher for topics still in the local set.
+      let topics_to_unsubscribe: Vec<K> = self.subscriptions.lock().iter().cloned().collect();
       for topic in topics_to_unsubscribe {
         self.unsubscribe(&topic);
       }
@@ -323,7 +324,8 @@ where
 {
   fn drop(&mut self) {
     if let Some(dispatcher) = self.dispatcher.upgrade() {
-      let topics_to_unsubscribe: Vec<K> = self.subscriptions.lock().drain().collect();
+      // Copy, do not drain: `unsubscribe` only touches the dispatcher for topics still in the local set.
+      let topics_to_unsubscribe: Vec<K> = self.subscriptions.lock().iter().cloned().collect();
 
       for topic in topics_to_unsubscribe {
         self.unsubscribe(&topic);
